@@ -114,10 +114,14 @@ class Builder(NullCell):
         return self
 
     def store_uint(self, value: int, size: int):
+        if size == 0 and value == 0:  # zero-width field, e.g. addr_extern with len = 0
+            return self
         self._bits.extend(int2ba(value, size, signed=False))
         return self
 
     def store_int(self, value: int, size: int):
+        if size == 0 and value == 0:
+            return self
         self._bits.extend(int2ba(value, size, signed=True))
         return self
 
